@@ -61,6 +61,16 @@ func (g *gen) invites(typ int) []int {
 	}
 	return out
 }
+func (g *gen) oddInvites() []int {
+	var out []int
+	for _, k := range sortedKeys(g.s.Inv) {
+		if t := g.s.Inv[k].Typ; t != 0 && t != 1 {
+			out = append(out, k)
+		}
+	}
+	return out
+}
+
 func (g *gen) requests(typ int) []int {
 	var out []int
 	for _, k := range sortedKeys(g.s.Req) {
@@ -78,11 +88,21 @@ func (g *gen) anyAcc() int {
 	return g.r.Intn(nAccounts)
 }
 
+// oddValues: out-of-enum wire values of an int32 protobuf enum (permissions, invite types)
+var oddPerms = []int{6, 7, 8, -1, -5, 100, 2147483647, -2147483648}
+var oddTypes = []int{2, 3, 7, -1, 2147483647}
+
 func (g *gen) anyPerm() int {
-	if g.r.Chance(5) {
-		return 6 + g.r.Intn(3) // out-of-enum wire value
+	if g.r.Chance(8) {
+		return oddPerms[g.r.Intn(len(oddPerms))]
 	}
 	return g.r.Intn(6)
+}
+
+// oddAccounts: members whose permission is outside the enum (powerless members by the unmodified
+// predicates of models.go)
+func (g *gen) oddAccounts() []int {
+	return g.accounts(func(i int, a accSt, known bool) bool { return known && (a.Perm < 0 || a.Perm > pGuest) })
 }
 
 // anyRec: a record reference of any kind — live invite, live request, some other accepted record,
@@ -185,6 +205,8 @@ func (g *gen) valid(kind string) (int, content, bool) {
 			p := mperm()
 			if g.r.Chance(15) {
 				p = pGuest
+			} else if g.r.Chance(12) {
+				p = oddPerms[g.r.Intn(len(oddPerms))] // accepted: a member without any right
 			}
 			ps = append(ps, pair{t, p})
 		}
@@ -193,6 +215,12 @@ func (g *gen) valid(kind string) (int, content, bool) {
 		c := content{K: "inv", Typ: g.r.Intn(2), Key: g.r.Intn(nInvKeys)}
 		if c.Typ == 1 {
 			c.Perm, c.HasRK = mperm(), true
+		}
+		if g.r.Chance(20) {
+			// an unknown invite type: every permission level is accepted from every manager
+			c.Typ = oddTypes[g.r.Intn(len(oddTypes))]
+			c.Perm = []int{pAdmin, pAdmin, pOwner, pWriter, pReader, pGuest, pNone, 7}[g.r.Intn(8)]
+			c.HasRK = g.r.Chance(50)
 		}
 		return mgr, c, true
 	case "ich":
@@ -214,6 +242,11 @@ func (g *gen) valid(kind string) (int, content, bool) {
 		return mgr, content{K: "irv", Rec: i}, true
 	case "ijn":
 		i, ok := g.pick(g.invites(1))
+		if odd := g.oddInvites(); len(odd) > 0 && (g.r.Chance(30) || !ok) {
+			// an invite of an unknown type must not be joinable (generated as a "valid" template so that
+			// it is tried often; the expected verdict is a rejection)
+			i, ok = odd[g.r.Intn(len(odd))], true
+		}
 		a, ok2 := g.pick(g.nonMembers())
 		if !ok || !ok2 {
 			return 0, content{}, false
@@ -333,6 +366,11 @@ func (g *gen) mutate(author int, c content) (int, content, string) {
 	case 0, 1, 2:
 		a := g.r.Intn(nAccounts)
 		return a, c, "author"
+	case 3:
+		if odd := g.oddAccounts(); len(odd) > 0 {
+			// a member whose permission value is outside the enum signs (a manager-only operation, mostly)
+			return odd[g.r.Intn(len(odd))], c, "author-odd-perm"
+		}
 	}
 	switch c.K {
 	case "pc", "own", "acc":
@@ -378,7 +416,7 @@ func (g *gen) mutate(author int, c content) (int, content, string) {
 			c.Perm = g.anyPerm()
 			return author, c, "perm"
 		case 1:
-			c.Typ = g.r.Intn(3)
+			c.Typ = append([]int{0, 1}, oddTypes...)[g.r.Intn(2+len(oddTypes))]
 			return author, c, "type"
 		case 2:
 			c.Key = BAD
